@@ -320,3 +320,30 @@ VEC_LEN[DictM] = lambda E, d: IntV(len(d.items), 'usize')
 # `matches!(entry, Entry::Vacant(_))`: std's map Entry enums list Vacant first, Occupied second
 from .engine import SPECIAL_DISCR
 SPECIAL_DISCR[EntryM] = lambda E, e: IntV(0 if e.idx is None else 1, 'isize')
+
+
+@model('re:^VacantEntry::(insert|insert_entry|key|into_key)$', 're:^OccupiedEntry::(get|get_mut|into_mut|insert|key|remove|remove_entry)$',
+       're:^(btree_map|hash_map|map|entry)::(VacantEntry|OccupiedEntry)::\\w+$')
+def _(E, c):
+    e = E.deref(c.args[0])
+    e = e.obj if isinstance(e, ObjV) else e
+    m = c.callee.idents[-1]
+    if m in ('key', 'into_key'):
+        return RefV(Cell(e.kv, 'ek'), ()) if m == 'key' else e.kv
+    if e.idx is None:
+        if m not in ('insert', 'insert_entry'):
+            raise Inconclusive('%s on a vacant entry' % m)
+        e.d.items.append([e.kt, e.kv, Cell(c.args[1], 'dv')])
+        e.idx = len(e.d.items) - 1
+        return RefV(e.d.items[e.idx][2], (), True)
+    cell = e.d.items[e.idx][2]
+    if m in ('get', 'get_mut', 'into_mut'):
+        return RefV(cell, (), m != 'get')
+    if m == 'insert':
+        old = cell.value
+        cell.value = c.args[1]
+        return old
+    if m in ('remove', 'remove_entry'):
+        it = e.d.items.pop(e.idx)
+        return it[2].value if m == 'remove' else StructV('tuple', {0: it[1], 1: it[2].value})
+    raise Inconclusive('entry method %s' % m)
